@@ -70,9 +70,14 @@ def main():
             cdup, lsfiles = git_view(proj, env) if case["git"] else ("", [])
             dry = run_clean(proj, env, case, "dry-run")
             after_dry = scan(top)
+            # the order in which the operating system hands out directory entries (Path.iterdir)
+            order = {"": os.listdir(top)}
+            for rel, isdir in after_dry:
+                if isdir:
+                    order[rel] = os.listdir(top / rel)
             force = run_clean(proj, env, case, "force")
             after_force = scan(top)
-            out.append({"top": str(top), "proj": str(proj), "before": before, "after_dry": after_dry, "after_force": after_force,
+            out.append({"top": str(top), "proj": str(proj), "before": before, "after_dry": after_dry, "after_force": after_force, "order": order,
                         "dry": dry, "force": force, "cdup": cdup, "lsfiles": lsfiles})
         except Exception as e:  # noqa: BLE001
             out.append({"error": repr(e)})
